@@ -45,11 +45,12 @@ IsBlank(c) == c = 32 \/ c = 9
 RECURSIVE LeadBlanks(_)
 LeadBlanks(line) == IF line # <<>> /\ IsBlank(Head(line)) THEN 1 + LeadBlanks(Tail(line)) ELSE 0
 
-(* a line of the re-indented string is the original line minus some of its leading blanks *)
-ReindentOf(orig, new) ==
-  /\ Len(new) <= Len(orig)
-  /\ Len(orig) - Len(new) <= LeadBlanks(orig)
-  /\ new = SubSeq(orig, Len(orig) - Len(new) + 1, Len(orig))
+(* re-indentation changes nothing but the leading blanks of a continuation line (pfst dedents by the block indent *)
+(* on extraction and indents by the target's on insertion; with ragged or tab/space-mixed lines the two are not   *)
+(* exact inverses, which the documentation calls "inconsistent dedentation")                                      *)
+RECURSIVE SkipBlanks(_)
+SkipBlanks(line) == IF line # <<>> /\ IsBlank(Head(line)) THEN SkipBlanks(Tail(line)) ELSE line
+ReindentOf(orig, new) == SkipBlanks(orig) = SkipBlanks(new)
 
 DocLines(v) == IF v \in 1..Len(DMap) /\ DMap[v] \in 1..Len(TTab) THEN TTab[DMap[v]] ELSE <<>>
 
@@ -324,8 +325,8 @@ CutClauses(s, o, e) ==
 (* ------------------------------------------------------------------------ *)
 (* C08.  "Structurally equal to the original" is read, as in C07, up to the    *)
 (* documented re-indentation of docstrings: a continuation line of a string in *)
-(* Expr-statement position may have lost leading blanks (own_src() and copy()   *)
-(* dedent them), never gained any and never changed otherwise.                 *)
+(* Expr-statement position may differ in its leading blanks (copy / own_src    *)
+(* dedent, put indents) and in nothing else.                                   *)
 
 Sync(t) == t.srcOk /\ t.liveP = t.srcP
 
